@@ -54,6 +54,53 @@ def sswu_special_inputs(g):
     return out
 
 
+def sswu_image_special_inputs(rng, want=6):
+    """G2 inputs whose SWU IMAGE has a y-coordinate with a zero coefficient (y in Fq, or purely imaginary), reached as
+    first and as second candidate. x = a + b*I with Im(x^3 + A'x + B') = 0 makes y^2 an element of Fq, hence y real or
+    purely imaginary; the SWU map is then inverted for that x (s = Z t^2 solves a quadratic for either candidate)."""
+    f = FQ2
+    iso, Z = RF.ISO2, RF.Z2
+    A, B = iso.a, iso.b
+    assert A == (0, 240) and B == (1012, 1012)
+    one, two, four = f.one, f.small(2), f.small(4)
+    out, tries = [], 0
+    kinds = set()
+    while (len(out) < want or len(kinds) < 4) and tries < 400:
+        tries += 1
+        b = rng.randrange(1, Q)
+        # 3b a^2 + 240 a + (1012 - b^3) = 0
+        disc = F.fq_sqrt((240 * 240 - 12 * b * (1012 - b ** 3)) % Q)
+        if disc is None:
+            continue
+        a = (-240 + rng.choice([1, -1]) * disc) * pow(6 * b, -1, Q) % Q
+        x = (a, b)
+        gx = iso.rhs(x)
+        assert gx[1] == 0
+        c = f.mul(f.neg(f.mul(A, x)), f.inv(B))            # c = -A'x/B'
+        svals = []
+        w = f.sub(c, one)                                   # candidate 1: 1/(s^2+s) = c - 1
+        if not f.is_zero(w):
+            d = f.sqrt(f.add(one, f.mul(four, f.inv(w))))
+            if d is not None:
+                svals += [f.mul(f.sub(d, one), f.inv(two)), f.mul(f.sub(f.neg(d), one), f.inv(two))]
+        e = f.sub(one, c)                                   # candidate 2: s^2 + (1-c) s + (1-c) = 0
+        d = f.sqrt(f.sub(f.mul(e, e), f.mul(four, e)))
+        if d is not None:
+            svals += [f.mul(f.sub(d, e), f.inv(two)), f.mul(f.sub(f.neg(d), e), f.inv(two))]
+        for sv in svals:
+            if f.is_zero(sv):
+                continue
+            t = f.sqrt(f.mul(sv, f.inv(Z)))
+            if t is None:
+                continue
+            for tt in (f.norm(t), f.norm(f.neg(t))):
+                P, info = RF.sswu(iso, Z, tt)
+                if P[0] == f.norm(x) and (P[1][0] == 0 or P[1][1] == 0):
+                    out.append(tt)
+                    kinds.add((info["which"], P[1][0] == 0))
+    return out
+
+
 def plan(tier, seed):
     shards, no = [], 0
     q = tier == "quick"
@@ -76,6 +123,7 @@ def run_shard(shard, tier, seed, wd, res):
         vals = [f.zero, f.one, f.neg(f.one)] + [f.small(k) for k in range(2, 12)] + [f.neg(f.small(k)) for k in range(2, 6)] + exceptional_inputs(g)
         vals += sswu_special_inputs(g)
         if g == 2:
+            vals += sswu_image_special_inputs(rng)
             for a in (1, 2, Q - 1, (Q - 1) // 2, rng.randrange(Q)):
                 vals += [(a, 0), (0, a), (a, a), (a, Q - a)]
             # first coefficient at limb boundaries (value and Montgomery domain), second coefficient odd / even
@@ -132,6 +180,9 @@ def judge(ctx, rec, res):
     cell = ("cand%d" % info["which"], "mult=%s" % mult, "sgn0=%d" % f.sgn0(t))
     res.classes[(rec.op,) + cell + ("exceptional" if info["exceptional"] else "", rec.status, ctx.build)] += 1
     res.info["cell g%d %s %s %s" % ((g,) + cell)] += 1
+    if g == 2 and P is not None and (P[1][0] == 0 or P[1][1] == 0):
+        res.info["image g2 cand%d y.%s=0" % (info["which"], "c0" if P[1][0] == 0 else "c1")] += 1
+        res.classes[(rec.op, "image y.%s=0" % ("c0" if P[1][0] == 0 else "c1"), "cand%d" % info["which"], "y other coeff %s" % ("odd" if (P[1][1] if P[1][0] == 0 else P[1][0]) & 1 else "even"), rec.status, ctx.build)] += 1
     if v is None and rec.status == "ok":
         # on the isogenous curve, and the sign convention (implied by equality with the model; counted explicitly)
         Pl = iso.from_jacobian(*rec.outs[0][1])
@@ -162,6 +213,12 @@ def missing_classes(res, tier):
         cand = 1 if idx % 2 == 0 else 2
         for sg in (0, 1):
             k = "cell g2 cand%d mult=%s sgn0=%d" % (cand, idx, sg)
+            if not res.info.get(k):
+                miss.append(k)
+    # images whose y has a zero coefficient, through either candidate
+    for cand in (1, 2):
+        for co in ("c0", "c1"):
+            k = "image g2 cand%d y.%s=0" % (cand, co)
             if not res.info.get(k):
                 miss.append(k)
     return miss
